@@ -70,13 +70,16 @@ def render(d):
         b = d.bounds.get(p)
         if b and in_where:
             gens.append(p)
-            wheres.append("%s: %s" % (p, b))
+            # one predicate per bound: every predicate on the parameter has to be propagated
+            for part in b.split(" + "):
+                wheres.append("%s: %s" % (p, part))
         else:
             gens.append("%s: %s" % (p, b) if b else p)
     for cp in d.cparams:
         gens.append("const %s: usize" % cp)
     g = "<%s>" % ", ".join(gens) if gens else ""
     wc = (" where %s" % ", ".join(wheres)) if wheres else ""
+    attrs = list(getattr(d, "extra_attrs", [])) + attrs
     out = "\n".join(attrs) + "\n"
     if d.kind == "unit":
         out += "pub struct %s%s%s;\n" % (d.name, g, wc)
@@ -91,6 +94,9 @@ def render(d):
                 vs.append(vn)
             elif vk == "tuple":
                 vs.append("%s(%s)" % (vn, ", ".join(t for _n, t in fs)))
+            elif vk == "tuple:disc":
+                nm, disc = vn.split(" = ")
+                vs.append("%s(%s) = %s" % (nm, ", ".join(t for _n, t in fs), disc))
             else:
                 vs.append("%s { %s }" % (vn, ", ".join("%s: %s" % (n, t) for n, t in fs)))
         out += "pub enum %s%s%s { %s }\n" % (d.name, g, wc, ", ".join(vs))
@@ -250,6 +256,20 @@ def build(tier, seed):
             vk = ("unit", "tuple", "named")[vi % 3]
             fs = [] if vk == "unit" else [(FIELD_NAMES[j], CLOSED_DEEP_FIELDS[(vi + j) % len(CLOSED_DEEP_FIELDS)]) for j in range(1 + vi % 2)]
             d.variants.append(("V%d" % vi, vk, fs))
+        defs.append(d)
+    # ---- 4b. explicit discriminants (fieldless enums, and enums with payloads under a primitive repr):
+    #          tags stay declaration indices on all three sides
+    for (nv, payload) in ((3, False), (5, False), (4, True)):
+        d = new()
+        d.kind, d.copy = "enum", "deep"
+        discs = [7, 0, 3, 250, 1][:nv]
+        for vi in range(nv):
+            if payload and vi % 2 == 1:
+                d.variants.append(("V%d = %d" % (vi, discs[vi]), "tuple:disc", [(None, CLOSED_DEEP_FIELDS[vi % len(CLOSED_DEEP_FIELDS)])]))
+            else:
+                d.variants.append(("V%d = %d" % (vi, discs[vi]), "unit", []))
+        if payload:
+            d.extra_attrs = ["#[repr(u8)]"]
         defs.append(d)
     # ---- 5. random tail
     ntail = 20 if tier == "quick" else 120
